@@ -32,6 +32,9 @@ type Input struct {
 type Case struct {
 	Case  string `json:"case"`
 	Input Input  `json:"input"`
+	// what the TLA+ Machine reported for this input (TLC cases only); passed through untouched for
+	// the Machine-vs-code drift note in the evidence, never used for a verdict
+	Machine json.RawMessage `json:"machine,omitempty"`
 }
 
 type Entry struct {
@@ -50,9 +53,10 @@ type Obs struct {
 }
 
 type Record struct {
-	Case     string `json:"case"`
-	Input    Input  `json:"input"`
-	Observed Obs    `json:"observed"`
+	Case     string          `json:"case"`
+	Input    Input           `json:"input"`
+	Observed Obs             `json:"observed"`
+	Machine  json.RawMessage `json:"machine,omitempty"`
 }
 
 func normalize(c *Case) {
@@ -173,7 +177,7 @@ func one(raw json.RawMessage) interface{} {
 		panic(err)
 	}
 	normalize(&c)
-	rec := Record{Case: c.Case, Input: c.Input, Observed: Obs{Todos: []Entry{}}}
+	rec := Record{Case: c.Case, Input: c.Input, Observed: Obs{Todos: []Entry{}}, Machine: c.Machine}
 	scratch, err := os.MkdirTemp(os.Getenv("VERIF_SCRATCH"), "todo-")
 	if err != nil {
 		fmt.Fprintln(os.Stderr, "harness:", err)
@@ -201,7 +205,8 @@ func abnormal(raw json.RawMessage, timeout bool, stderr string) interface{} {
 	var c Case
 	json.Unmarshal(raw, &c)
 	normalize(&c)
-	return Record{Case: c.Case, Input: c.Input, Observed: Obs{Panic: !timeout, Timeout: timeout, Todos: []Entry{}, Note: short(stderr, 300)}}
+	return Record{Case: c.Case, Input: c.Input, Machine: c.Machine,
+		Observed: Obs{Panic: !timeout, Timeout: timeout, Todos: []Entry{}, Note: short(stderr, 300)}}
 }
 
 func main() {
